@@ -95,7 +95,7 @@ def _numv(rng, choices, as_float=0.5):
     return v
 
 
-def pitch_keys(rng, scale_p=0.45):
+def pitch_keys(rng, scale_p=0.45, classes=True):
     """Pitch keys: every source key with every modifier of the documented
     chain.  Kept out (the statement does not decide them, see the audit table
     in vf/props/C14.py): harmonic != 1 together with an explicit freq."""
@@ -109,7 +109,7 @@ def pitch_keys(rng, scale_p=0.45):
         ev['scale'] = scale
     if src == 'degree':
         ev['degree'] = _numv(rng, list(range(-14, 22)), 0.2)
-        if rng.random() < 0.12:     # accidentals: x.1 sharp, x.9 = (x+1) flat
+        if classes and rng.random() < 0.12:     # accidentals: x.1 sharp, x.9 flat
             ev['degree'] = ev['degree'] + rng.choice([0.1, -0.1, 0.2, -0.2])
         if rng.random() < 0.4:
             ev['mtranspose'] = _numv(rng, list(range(-7, 8)), 0.2)
@@ -138,7 +138,11 @@ def pitch_keys(rng, scale_p=0.45):
             ev['root'] = _numv(rng, [-2, 1, 2.5, 3, 5])
     if src in ('degree', 'note', 'none') and rng.random() < 0.3:
         ev['octave'] = _numv(rng, [2, 3, 4, 4.5, 5, 6, 7])
-    if src != 'freq' and rng.random() < 0.3:
+    frac = 'degree' in ev and ev['degree'] != int(ev['degree'])
+    if (src in ('midinote', 'note') or (classes and src != 'freq' and not frac)) \
+            and rng.random() < 0.3:
+        # (one input class per event: a fractional degree gets no ctranspose;
+        # classes=False: histories on event objects stay clear of both)
         ev['ctranspose'] = _numv(rng, [-12, -1, -0.5, 0.25, 1, 7, 12])
     if src != 'freq' and rng.random() < 0.3:
         ev['harmonic'] = _numv(rng, [0.5, 1, 1.5, 2, 3, 4])
@@ -226,7 +230,7 @@ def _history_event(rng, inst, tag, offgrid):
     """Event spec for objects that are played more than once: any pitch keys
     (every play must resolve them anew from what the object defines then)."""
     ev = {'instrument': inst['name'], 'tag': tag}
-    ev.update(pitch_keys(rng, scale_p=0.1))
+    ev.update(pitch_keys(rng, scale_p=0.1, classes=False))
     ev.update(amp_keys(rng))
     ev.update(dur_keys(rng, offgrid))
     ev.update(server_keys(rng, inst))
@@ -258,7 +262,7 @@ def _history_edit(rng, ev, insts, offgrid):
         elif what == 'server':
             st.update(server_keys(rng, inst))
         elif what == 'pitch':
-            for k, v in pitch_keys(rng, scale_p=0.0).items():
+            for k, v in pitch_keys(rng, scale_p=0.0, classes=False).items():
                 st[k] = v
         else:
             cand = [k for k in ev if k not in ('instrument', 'tag')
@@ -306,6 +310,12 @@ def history_steps(rng, insts, tags, offgrid):
             state[k].pop('harmonic')
             st.pop('harmonic', None)
             dl.append('harmonic')
+        if 'ctranspose' in state[k] and not any(
+                x in state[k] for x in ('freq', 'midinote', 'note')):
+            # histories stay clear of the ctranspose-with-degree input class
+            state[k].pop('ctranspose')
+            st.pop('ctranspose', None)
+            dl.append('ctranspose')
         steps.append({'wait': wait, 'event': dict(state[k]), 'how': 'object',
                       'obj': k, 'op': op, 'src': src, 'set': st, 'del': dl,
                       'prev_tags': list(lineage[k])})
@@ -409,9 +419,10 @@ def pbind_spec(rng, insts, tags, offgrid=False, rests=True, timing=True,
     if pitch:
         src = rng.choice(['degree', 'degree', 'midinote', 'freq', 'note', 'none'])
         if src == 'degree':
+            fr = rng.random() < 0.15
             m['degree'] = _column(rng, n, list(range(-7, 15)) + (
-                [1.1, 3.9, -2.1, 6.2] if rng.random() < 0.15 else []), 0.2, rp)
-            if rng.random() < 0.2:
+                [1.1, 3.9, -2.1, 6.2] if fr else []), 0.2, rp)
+            if not fr and rng.random() < 0.2:
                 m['ctranspose'] = _column(rng, n, [-12, 0.5, 7], 0.5)
             if rng.random() < 0.3:
                 m['mtranspose'] = _column(rng, n, [-2, -1, 1, 3], 0.5)
